@@ -571,7 +571,7 @@ func coopEngine() {
 		}
 		r := coop.Run(ch, coop.Options{Adversarial: 1500, FairTail: 20000}, fns...)
 		if r.Stuck {
-			run.Inconclusive("scheduler: a worker did not reach a yield point (wall-clock guard)")
+			run.Abort("scheduler: a worker did not reach a yield point (wall-clock guard); the process is abandoned")
 			return
 		}
 		c.Choices = r.Choices
